@@ -572,6 +572,14 @@ def main(argv):
                 out['%s::%s' % (ex['file'], ex['path'])] = ex['tokens']
         with open(os.path.join(CONTRACTS, 'pinned_tokens.json'), 'w') as f:
             json.dump(out, f)
+        loops = {}
+        for n, u in all_units().items():
+            ub = weave.build_unit(u['path'], REPO)
+            for ex in ub.extracts:
+                if ex.get('loops') and ex['loops'].get('ord'):
+                    loops['%s::%s::%s' % (ex['file'], ex['path'], ex['alias'])] = ex['loops']
+        with open(os.path.join(CONTRACTS, 'pinned_loops.json'), 'w') as f:
+            json.dump(loops, f)
         print('pinned %d items' % len(out))
         return 0
     if a.unit:
